@@ -6,6 +6,7 @@ import (
 	"fmt"
 	"sort"
 	"strings"
+	"sync"
 
 	"github.com/opencontainers/go-digest"
 	ocispec "github.com/opencontainers/image-spec/specs-go/v1"
@@ -73,6 +74,9 @@ type Graph struct {
 	Spec  *GraphSpec
 	Nodes []*Node
 	byKey map[string]int
+
+	varMu    sync.Mutex
+	varCache map[string]map[string]string // descriptor variants handed to Tag, see descVariant
 }
 
 func descKey(d ocispec.Descriptor) string {
@@ -295,6 +299,7 @@ type GraphOpts struct {
 	OneDigest  bool // all digests distinct (stores keyed by digest only)
 	AliasNames bool // with Titles: some blobs share a file name (different content under one name)
 	SHA512     bool // some blobs are addressed by sha512
+	Fanout     bool // with Referrers: many referrers share one subject (paged listings, merged index updates)
 }
 
 var aTypes = []string{"application/vnd.example.sbom", "application/vnd.example.sig", "application/vnd.test+type", ""}
@@ -311,6 +316,7 @@ func GenGraph(r *Rand, o GraphOpts) *GraphSpec {
 	total := r.Range(2, max)
 	nBlobs := r.Range(1, (total+1)/2+1)
 	var blobs, manifs []int
+	hub := -1
 	add := func(ns NodeSpec) int {
 		gs.Nodes = append(gs.Nodes, ns)
 		return len(gs.Nodes) - 1
@@ -418,6 +424,13 @@ func GenGraph(r *Rand, o GraphOpts) *GraphSpec {
 		}
 		if o.Referrers && len(manifs) > 0 && ns.Kind != "dmanifest" && ns.Kind != "dlist" && r.Chance(0.45) {
 			ns.Subject = pick(r, manifs)
+			if o.Fanout {
+				if hub >= 0 && r.Chance(0.6) {
+					ns.Subject = hub
+				} else {
+					hub = ns.Subject
+				}
+			}
 			if r.Chance(0.08) {
 				ns.Subject = pick(r, blobs) // subject may be any descriptor
 			}
